@@ -527,6 +527,7 @@ FAR_SITE = 100         # a splice site moved by at least this much is "far beyon
                        # max_intron_shift (max 60: an intron moved as a whole by <= 60 is an `intron_shift` artifact)
 FAR_LEN = 200          # skipped / extra exon, retained intron, extension length that is "far beyond" all tolerances
 MIN_ANNOT_EXON = 110   # annotated exons of the oracle's domain are longer than max_missed_exon_len (max 100)
+MAX_FAKE_EXON = 40     # max_fake_terminal_exon_len over all presets
 FAR_EXON = 60          # blocks of a "far" read are longer than max_fake_terminal_exon_len (max 40): no micro terminal exons
 CONSISTENT = ("unique", "unique_minor_difference", "ambiguous")
 
@@ -661,12 +662,29 @@ def check_assignment(isoforms, delta, blocks, tail, result):
                     t["exons"][0][0] - 10 <= blocks[0][0] and blocks[-1][1] <= t["exons"][-1][1] + 10]
             if len(comp) == 1 and (rep != comp or typ not in ("unique", "unique_minor_difference")):
                 fails.append(("only_compatible_not_unique", "only %s is compatible; reported %s %s" % (comp, typ, rep)))
-    elif min(b[1] - b[0] + 1 for b in blocks) >= FAR_EXON and \
-            min(e[1] - e[0] + 1 for t in isoforms for e in t["exons"]) >= MIN_ANNOT_EXON and \
-            all(o_far_from(blocks, t["exons"], t["strand"], tail) for t in isoforms):
-        if typ in CONSISTENT:
-            fails.append(("far_read_consistent", "read is far from every isoform but reported %s %s" % (typ, rep)))
+    else:
+        # the "fake terminal exon" tolerance can excuse at most the outermost exon (<= max_fake_terminal_exon_len) and its
+        # intron: a read whose remaining blocks are far from every isoform is far whatever its outermost exons are
+        core = far_core(blocks, tail)
+        if min(b[1] - b[0] + 1 for b in core) >= FAR_EXON and \
+                min(e[1] - e[0] + 1 for t in isoforms for e in t["exons"]) >= MIN_ANNOT_EXON and \
+                all(o_far_from(core, t["exons"], t["strand"], tail) for t in isoforms):
+            if typ in CONSISTENT:
+                fails.append(("far_read_consistent", "read is far from every isoform but reported %s %s" % (typ, rep)))
     return fails
+
+
+def far_core(blocks, tail):
+    """the read without its (at most one per side) outermost exon of at most MAX_FAKE_EXON bases; reads with a polyA/T
+    tail are kept as they are"""
+    core = list(blocks)
+    if tail is not None:
+        return core
+    if len(core) >= 3 and core[0][1] - core[0][0] + 1 <= MAX_FAKE_EXON:
+        core = core[1:]
+    if len(core) >= 3 and core[-1][1] - core[-1][0] + 1 <= MAX_FAKE_EXON:
+        core = core[:-1]
+    return core
 
 
 # ---- oracle annotations / reads: kept clear of the borders of the tolerances
@@ -674,7 +692,7 @@ def check_assignment(isoforms, delta, blocks, tail, result):
 def oracle_annotation(rng, n_genes=None):
     """one cluster: exons >= 120 bp, introns >= 300 bp; alternative sites at distances 3..12 (within some deltas) or >= 60"""
     isoforms = []
-    pos = rng.randint(500, 1500)
+    pos = rng.randint(3000, 4000)          # room for up to three extra upstream exons (flank_l reads)
     n_genes = n_genes or rng.randint(1, 3)
     for gi in range(n_genes):
         strand = rng.choice("+-")
@@ -771,8 +789,30 @@ def oracle_follow_read(rng, t, delta):
 def oracle_far_read(rng, t):
     ex = [list(e) for e in t["exons"]]
     n = len(ex)
-    kind = rng.choice(["skip", "novel_exon", "retain", "shift5", "shift3", "extend_l", "extend_r", "apa"])
-    if kind == "apa":
+    kind = rng.choice(["skip", "novel_exon", "retain", "shift5", "shift3", "extend_l", "extend_r", "apa",
+                       "flank_l", "flank_r"])
+    if kind in ("flank_l", "flank_r"):
+        # 2-3 extra exons beyond the transcript's low- / high-coordinate end (unannotated upstream / downstream exons): the
+        # inner ones long (>= FAR_LEN), the outermost one short (1..40 bp, inside some presets' fake-terminal-exon
+        # tolerance, which may excuse that exon only)
+        n_extra = rng.choice([2, 3])
+        lens = [rng.randint(FAR_LEN, FAR_LEN + 150) for _ in range(n_extra - 1)] + \
+               [rng.randint(1, 20) if rng.random() < 0.4 else rng.randint(1, MAX_FAKE_EXON)]      # inner ... outermost
+        if n > 2 and rng.random() < 0.3:
+            ex = ex[:rng.randint(2, n)] if kind == "flank_l" else ex[rng.randint(0, n - 2):]       # 3'/5' truncated rest
+        if kind == "flank_l":
+            pos = ex[0][0]
+            for ln in lens:
+                e_end = pos - rng.randint(300, 800) - 1
+                ex.insert(0, [e_end - ln + 1, e_end])
+                pos = e_end - ln + 1
+        else:
+            pos = ex[-1][1]
+            for ln in lens:
+                e_start = pos + rng.randint(300, 800) + 1
+                ex.append([e_start, e_start + ln - 1])
+                pos = e_start + ln - 1
+    elif kind == "apa":
         # polyA tail far inside the terminal exon (alternative polyA site): (blocks, kind) with kind "apa"; the caller adds
         # the tail at the truncated end
         if t["strand"] == "+" and ex[-1][1] - ex[-1][0] + 1 >= FAR_LEN + FAR_EXON + 20:
@@ -812,7 +852,7 @@ def oracle_far_read(rng, t):
         ex[0][0] -= rng.randint(FAR_LEN, 3 * FAR_LEN)
     elif kind == "extend_r":
         ex[-1][1] += rng.randint(FAR_LEN, 3 * FAR_LEN)
-    if kind not in ("apa", "extend_l", "extend_r") and rng.random() < 0.35:
+    if kind not in ("apa", "extend_l", "extend_r", "flank_l", "flank_r") and rng.random() < 0.35:
         # a small (tolerated) end extension on top of the far change: minor and major events then occur together
         if rng.random() < 0.5:
             ex[0][0] -= rng.randint(13, 45)
